@@ -1,5 +1,6 @@
 import Zlink.Model.DriverRx
 import Zlink.Model.DriverTx
+import Zlink.Model.DriverSer
 /-! `zmodel`: reads case lines on stdin, prints for each the model's observation and the Lean
     oracle's verdict on the implementation's observation. -/
 
@@ -9,6 +10,7 @@ def handleLine (line : String) : String :=
   | "rx" :: _ => DriverRx.handle false ts
   | "rxb" :: _ => DriverRx.handle true ts
   | "tx" :: _ => DriverTx.handle ts
+  | "ser" :: _ => DriverSer.handle ts
   | _ => "skip"
 
 partial def loop (h : IO.FS.Stream) (out : IO.FS.Stream) : IO Unit := do
